@@ -239,7 +239,16 @@ func TestPropCorpus(t *testing.T) {
 var typeForms = gen.TypeForms
 
 func genProjectCase(t *rapid.T) Case {
-	return Case{Entry: "project", Project: gen.GraphProject(t)}
+	p := gen.GraphProject(t)
+	if rapid.IntRange(0, 3).Draw(t, "cross") == 0 {
+		// the type objects register each other (and themselves) before the root registers them: loops in
+		// the registration graph that do not pass through the root
+		n := len(p.Types)
+		for k := rapid.IntRange(1, 4).Draw(t, "ncross"); k > 0; k-- {
+			p.Cross = append(p.Cross, [2]int{rapid.IntRange(0, n-1).Draw(t, "crossfrom"), rapid.IntRange(0, n-1).Draw(t, "crossto")})
+		}
+	}
+	return Case{Entry: "project", Project: p}
 }
 
 func hasCycle(p *sut.Project) bool {
